@@ -212,6 +212,36 @@ def run_cfg(run, cfg, seed, tier):
                 return
 
 
+def edge_planted(run, tier, rng):
+    """Runs whose first prior batch contains particles within 1e-9 .. 1e-12 of the faces of the cube (planted through
+    numpy.random.rand) and a target that gives them weight: every step must copy such records whole, bit for bit."""
+    orig_rand = np.random.rand
+    for ci, cfg in enumerate([dict(sample="tpcn", resample="syst", clustering=False, blobs=True, vectorize=False, volume_variation=None, hole=False),
+                              dict(sample="rwm", resample="mult", clustering=False, blobs=False, vectorize=False, volume_variation=None, hole=False,
+                                   reflective=[0])][:1 if tier == "quick" else 2]):
+        planted = [False]
+
+        def rand(*shape):
+            out = orig_rand(*shape)
+            if not planted[0] and len(shape) == 2 and shape[0] >= 6:
+                planted[0] = True
+                out[0] = [1 - 1e-12, 1 - 1e-9]
+                out[1] = [1 - 1e-10, 0.97]
+                out[2] = [0.96, 1 - 2e-16]
+                out[3] = [1 - 1e-15, 1 - 1e-15]
+                out[4] = [0.0, 1e-12]
+            return out
+        CENTRE[0] = 3.6
+        np.random.rand = rand
+        try:
+            run.case(key=("edge-planted", ci), nontrivial=True)
+            run_cfg(run, dict(cfg), 4242 + ci, tier)
+        finally:
+            np.random.rand = orig_rand
+            CENTRE[0] = 0.0
+        run.count("edge-planted run (particles within 1e-9..1e-16 of a face)" if planted[0] else "edge-planted run: nothing planted")
+
+
 def sweep(run, tier, rng):
     opts = dict(sample=["tpcn", "rwm"], resample=["mult", "syst"], clustering=[False, True], blobs=[False, True],
                 vectorize=[False, True], bc=["none", "periodic", "reflective", "mixed"], vv=[None, 0.5], hole=[False, True],
@@ -268,6 +298,7 @@ def main(tier, seed):
     run.prove("Props/C07.v", link_rels=["Link/Coherent.v"])
     try:
         sweep(run, tier, rng)
+        edge_planted(run, tier, rng)
     except Exception:
         import traceback
         run.broken.append(("harness-exception", traceback.format_exc()[-1500:]))
